@@ -46,6 +46,7 @@ type Frame struct {
 	depth     int
 	closures  map[ssa.Value]*closureVal
 	defers    []*ssa.CallCommon
+	deferBlk  []*ssa.BasicBlock
 	deferPos  []token.Pos
 	rets      []*retInfo
 	loops     map[*ssa.BasicBlock]*loopInfo
@@ -458,6 +459,18 @@ func (fr *Frame) invEnv(li *loopInfo, st *State) *Env {
 	if li.rangeInt != nil {
 		if v, ok := st.locals[li.rangeInt]; ok {
 			env.vars["$i"] = v
+		}
+	}
+	for _, in := range li.head.Instrs {
+		if nx, ok := in.(*ssa.Next); ok && !nx.IsString {
+			if r, ok := nx.Iter.(*ssa.Range); ok {
+				if _, isMap := r.X.Type().Underlying().(*types.Map); isMap {
+					if _, ok := fr.fc.comps[compRangeIter]; ok {
+						// $n: the number of keys the range-over-map loop has yielded so far
+						env.vars["$n"] = tSel(fr.fc.comp(st, compRangeIter), rangeIterKey(r), SInt, types.Typ[types.Int])
+					}
+				}
+			}
 		}
 	}
 	return env
